@@ -175,6 +175,12 @@ func TestVfReplay(t *testing.T) {
 				t.Fatalf("assertion %%s failed natively", want)
 			}
 		}
+		if len(outcome) > 6 && outcome[:6] == "panic:" {
+			// the same input makes the native code panic before the assertion is reached: the
+			// counterexample is real (a crash instead of the wrong answer the model predicted)
+			fmt.Println("VF-REPLAY: REPRODUCED")
+			t.Fatalf("native run panicked on the counterexample of %%s: %%s", want, outcome)
+		}
 	case "panic":
 		if len(outcome) > 6 && outcome[:6] == "panic:" {
 			fmt.Println("VF-REPLAY: REPRODUCED")
